@@ -15,6 +15,7 @@ import (
 	seccomp "github.com/elastic/go-seccomp-bpf"
 
 	"verifharness/probe"
+	"verifharness/progset"
 )
 
 type step struct {
@@ -56,6 +57,15 @@ func do(op string) (s step) {
 }
 
 func main() {
+	// -programs: what a fixed set of policies compiles to with this build's file set (nothing is loaded)
+	if len(os.Args) > 1 && os.Args[1] == "-programs" {
+		out := progset.Programs()
+		for k, v := range progset.DefaultArchPrograms() {
+			out[k] = v
+		}
+		json.NewEncoder(os.Stdout).Encode(out)
+		return
+	}
 	var ops []string
 	if err := json.NewDecoder(os.Stdin).Decode(&ops); err != nil {
 		fmt.Fprintln(os.Stderr, err)
